@@ -246,8 +246,26 @@ impl DnsCache {
             }
         }
 
-        // get the existing records for the type.
         let entry_name_lower = entry_name.to_lowercase();
+
+        // No existing records for this name and type, and not for us: leave the
+        // cache alone (an empty entry would later be taken for an expired one).
+        if !is_for_us {
+            let existing = match incoming.get_type() {
+                RRType::PTR => self.ptr.get(&entry_name),
+                RRType::SRV => self.srv.get(&entry_name),
+                RRType::TXT => self.txt.get(&entry_name),
+                RRType::A | RRType::AAAA => self.addr.get(&entry_name_lower),
+                RRType::NSEC => self.nsec.get(&entry_name),
+                _ => None,
+            };
+            if existing.map_or(true, |records| records.is_empty()) {
+                trace!("add_or_update: not for us: {}", incoming.get_name());
+                return None;
+            }
+        }
+
+        // get the existing records for the type.
         let record_vec = match incoming.get_type() {
             RRType::PTR => self.ptr.entry(entry_name).or_default(),
             RRType::SRV => self.srv.entry(entry_name).or_default(),
@@ -256,12 +274,6 @@ impl DnsCache {
             RRType::NSEC => self.nsec.entry(entry_name).or_default(),
             _ => return None,
         };
-
-        // No existing records for this name and type, and not for us.
-        if record_vec.is_empty() && !is_for_us {
-            trace!("add_or_update: not for us: {}", incoming.get_name());
-            return None;
-        }
 
         if incoming.get_cache_flush() {
             let now = current_time_millis();
